@@ -141,16 +141,16 @@ theorem specEncrypt_eq (c : Crypto) (cd : Codec) (P : EncParams) (fk : Bytes) (m
   simp [specEncrypt, hdrBytes, headerMac, headerKey, headerMessage, payloadKey, List.append_assoc]
 
 theorem header_wf (c : Crypto) (cd : Codec) (P : EncParams) (pwf : P.WF) (hmac : ∀ k msg, c.hmac k msg ≠ [])
-    (lcd : cd.Lawful P) (fk : Bytes) (m : Manifest) :
+    (fk : Bytes) (m : Manifest) (lcd : cd.LawfulFor m) :
     HdrWF P.scheme (cd.render m) (cd.b64 (headerMac c P fk (cd.render m))) :=
-  ⟨pwf.scheme_ne, pwf.scheme_nl, (lcd.render_line m).1, (lcd.render_line m).2,
+  ⟨pwf.scheme_ne, pwf.scheme_nl, lcd.render_line.1, lcd.render_line.2,
     (lcd.b64_line _ (hmac _ _)).1, (lcd.b64_line _ (hmac _ _)).2⟩
 
 /-- `Decrypt` on a non-failing source that starts with the honest header of `(fk, m)`: everything
     up to the segment loop succeeds, whatever follows the header and however it is chunked. -/
 theorem decrypt_of_honest_header (b : Bool) (c : Crypto) (cd : Codec) (P : EncParams) (pwf : P.WF)
-    (hmac : ∀ k msg, c.hmac k msg ≠ []) (lcd : cd.Lawful P) (fk : Bytes) (hfk : fk.length = P.fkLen)
-    (m : Manifest) (hm : m.valid P = true) (o : DecryptOpts)
+    (hmac : ∀ k msg, c.hmac k msg ≠ []) (fk : Bytes) (hfk : fk.length = P.fkLen)
+    (m : Manifest) (lcd : cd.LawfulFor m) (hm : m.valid P = true) (o : DecryptOpts)
     (hkn : o.keyName ≠ [] ∨ m.keyName ≠ [])
     (hunwrap : ∀ kn, o.unwrap m kn = fk)
     (payload : Bytes) (r : Reader) (heof : r.term = .eof)
@@ -163,11 +163,11 @@ theorem decrypt_of_honest_header (b : Bool) (c : Crypto) (cd : Codec) (P : EncPa
          (processSegments (P.segSize + P.overhead) P.maxSeg
             (decryptSeg c P m.cph (payloadKey c P fk m.np) m.np) r').term) := by
   rw [signHeader_eq] at hhdr hstream
-  obtain ⟨r', hrh, hrs, hrt⟩ := readHeader_complete b P _ _ payload (header_wf c cd P pwf hmac lcd fk m) hhdr r heof hstream
+  obtain ⟨r', hrh, hrs, hrt⟩ := readHeader_complete b P _ _ payload (header_wf c cd P pwf hmac fk m lcd) hhdr r heof hstream
   refine ⟨r', hrs, hrt, ?_⟩
   unfold decryptWith
   rw [hrh]
-  simp only [lcd.parse_render m hm, hm, Bool.not_true, Bool.false_eq_true, if_false]
+  simp only [lcd.parse_render, hm, Bool.not_true, Bool.false_eq_true, if_false]
   have hkey : (if o.keyName.isEmpty = true then m.keyName else o.keyName).isEmpty = false := by
     rcases hkn with h | h
     · have : o.keyName.isEmpty = false := by simpa using h
@@ -207,7 +207,7 @@ theorem specOpenSegs_sealed (c : Crypto) (P : EncParams) (cph : Nat) (pk np : By
 /-- A decoder written from README.md opens every document of the specification encoder (and hence,
     by `encrypt_layout`, every document `Encrypt` writes). -/
 theorem specDecrypt_specEncrypt (c : Crypto) (cd : Codec) (P : EncParams) (pwf : P.WF)
-    (lcd : cd.Lawful P) (fk : Bytes) (m : Manifest) (lc : c.LawfulFor P (payloadKey c P fk m.np) m.np)
+    (fk : Bytes) (m : Manifest) (lcd : cd.LawfulFor m) (lc : c.LawfulFor P (payloadKey c P fk m.np) m.np)
     (hm : m.valid P = true) (p : Bytes) : specDecrypt c cd P fk (specEncrypt c cd P fk m p) = some p := by
   have hform : specEncrypt c cd P fk m p =
       P.scheme ++ 10 :: (cd.render m ++ 10 :: (cd.b64 (c.hmac (c.hkdf fk [] P.hdrInfo P.hdrKeyLen)
@@ -218,10 +218,10 @@ theorem specDecrypt_specEncrypt (c : Crypto) (cd : Codec) (P : EncParams) (pwf :
   unfold specDecrypt
   rw [splitLine_append _ _ pwf.scheme_nl]
   simp only []
-  rw [splitLine_append _ _ (lcd.render_line m).2]
+  rw [splitLine_append _ _ lcd.render_line.2]
   simp only []
   rw [splitLine_append _ _ (lcd.b64_line _ (lc.hmac_ne _ _)).2]
-  simp only [ne_eq, not_true_eq_false, if_false, lcd.parse_render m hm, lcd.unb64_b64]
+  simp only [ne_eq, not_true_eq_false, if_false, lcd.parse_render, lcd.unb64_b64]
   have := segments_specPayload c P m.cph (c.hkdf fk m.np P.payInfo P.payKeyLen) m.np P.segSize pwf.seg_pos lc
     (segments P.segSize p) 0 (segments_shape _ pwf.seg_pos _)
   rw [this]
